@@ -214,9 +214,11 @@ class ChannelItem(EFLRItem, DimensionedItem):
 
         self._check_axis_vs_dimension()
 
-        if not self.long_name.value:
+        # a long name taken from the channel's name at an earlier write is not the user's: it follows the name again
+        if not self.long_name.value or self.long_name.value == getattr(self, '_long_name_from_name', None):
             logger.debug(f"Long name of channel '{self.name}' not specified; setting it to to the channel's name")
             self.long_name.value = self.name
+            self._long_name_from_name = self.long_name.value
 
 
 class ChannelSet(EFLRSet):
